@@ -49,7 +49,9 @@ def gen_case(rng, tier, index):
          "intel": isa == "x64" and rng.random() < 0.3,
          "unreachable": rng.random() < 0.3,
          "implicit_cfi": rng.random() < 0.3,
-         "allow_undef": rng.random() < 0.3, "lines": []}
+         "allow_undef": rng.random() < 0.3, "lines": [],
+         "bintype": rng.choice([["DYN"], ["DYN"], ["DYN", "PIE"],
+                                ["DYN", "SHARED"], ["PIE", "DYN"]])}
     v = vocab.VOCAB[isa]
     n = rng.choice([1, 2, 3, 5, 8, 12, 20, 40])
     labels = []
@@ -73,13 +75,27 @@ def gen_case(rng, tier, index):
         r = rng.random()
         if not in_text:
             r = 0.62 + r * 0.38  # only data-ish lines outside .text
+        if in_text and rng.random() < 0.03:
+            # a byte run that control flows into, cut by an alignment
+            lines.append({"k": "jne" if "jne" in v else "call",
+                          "t": target(True)})
+            lines.append({"d": "byte", "vals": [rng.randrange(256)
+                                                for _ in range(
+                                                    rng.randrange(1, 3))]})
+            lines.append({"d": "align", "n": rng.choice([2, 4, 8])})
+            lines.append({"d": "byte", "vals": [rng.randrange(256)
+                                                for _ in range(
+                                                    rng.randrange(1, 3))]})
+            continue
         if r < 0.22:
             lines.append({"k": rng.choice(ordk)})
         elif r < 0.28 and "lea_sym" in v:
             lines.append({"k": rng.choice(
                 [k for k in ("lea_sym", "mov_sym", "cmp_sym", "movi_sym",
                              "addlo_sym", "ldrlo_sym", "lui_hi", "addiu_lo")
-                 if k in v]), "t": target(False)})
+                 if k in v] + ([k for k in v if k.startswith("v_")]
+                               if fmt == "elf" and not c["intel"] else [])),
+                "t": target(False)})
             if rng.random() < 0.35:
                 lines[-1]["add"] = rng.choice([4, 8, 16, 24])
         elif r < 0.34 and "jmp" in v:
@@ -274,7 +290,8 @@ def target_module(c):
     fmt = {"elf": gtirb.Module.FileFormat.ELF,
            "pe": gtirb.Module.FileFormat.PE}[c["fmt"]]
     ir, m = create_test_module(
-        fmt, isa, ["DYN"] if c["pie"] else ["EXEC"],
+        fmt, isa, list(c.get("bintype") or ["DYN"]) if c["pie"]
+        else ["EXEC"],
         byte_order=gtirb.Module.ByteOrder.Big if c["isa"] == "mips32"
         else None)
     sec = gtirb.Section(name=".text", flags={
@@ -511,6 +528,27 @@ def run_case(c):
                 viol.append({
                     "key": "asm:missing-fallthrough-to-next-code-block",
                     "msg": f"{sname}+{b.offset}\n{text}"[:800]})
+            # a .byte run that stayed code (control flows into it) and is
+            # cut in two by an alignment directive: the second half is
+            # flowed into as well, so it stays code and is linked
+            if not has_instr and b.size and nxt is not None and any(
+                    kind == "A" and p == b.offset + b.size
+                    for (p, kind, ln, size) in tl) and \
+                    all(kind != "D" or ln["d"] == "byte"
+                        for (p, kind, ln, size) in tl
+                        if b.offset <= p < nxt.offset + max(nxt.size, 1)) \
+                    and not any(kind == "I" and nxt.offset <= p < nxt.offset
+                                + nxt.size for (p, kind, ln, size) in tl) \
+                    and nxt.size and not any(
+                        lp == nxt.offset and ls == sname
+                        for (ls, lp) in labels.values()):
+                ctr["byte_runs_cut_by_align"] = ctr.get(
+                    "byte_runs_cut_by_align", 0) + 1
+                if not (isinstance(nxt, gtirb.CodeBlock) and len(ft) == 1
+                        and ft[0].target is nxt):
+                    viol.append({
+                        "key": "asm:byte-run-cut-by-align-not-linked",
+                        "msg": f"{sname}+{b.offset}\n{text}"[:800]})
             if not want_ft and ft:
                 viol.append({"key": "asm:fallthrough-to-non-code",
                              "msg": f"{sname}+{b.offset}\n{text}"[:800]})
